@@ -1,2 +1,4 @@
 import GfaGen.Cigar
 import GfaGen.Geometry
+import GfaGen.Regexes
+import GfaGen.Multiply
